@@ -113,6 +113,10 @@ def run_parallel(cmds):
         time.sleep(0.02)
 
 
+class VariantSkipped(Exception):
+    pass
+
+
 def build(pid, variant="main"):
     """Builds the repo objects and the harness for property `pid` from /repo's working tree."""
     cfg = PROPS[pid]
@@ -148,7 +152,15 @@ def build(pid, variant="main"):
     hflags = flags + v.get("harness_cxxflags", cfg.get("harness_cxxflags", []))
     ld = v.get("ldflags", cfg.get("ldflags", []))
     hsrcs = [os.path.join(ROOT, h) for h in v.get("harness", cfg.get("harness"))]
-    extra = b"".join(read(os.path.join(ROOT, e)) for e in cfg.get("harness_deps", []))
+    extra = b"".join(read(os.path.join(ROOT, e)) for e in cfg.get("harness_deps", []) + v.get("harness_deps_extra", []))
+    # E-PREEMPT variants run concurrent calls as fibers of one OS thread, which share thread_local storage: if an instrumented
+    # source defines thread-local objects the variant would report sharing that real threads do not have, so it is skipped
+    # (with a note in the evidence, exhaustive:false) instead of risking a false alarm.
+    for s in v.get("no_tls", []):
+        o = objs[v.get("srcs", cfg.get("srcs", [])).index(s)]
+        secs = subprocess.run(["readelf", "-S", "-W", o], capture_output=True, text=True).stdout
+        if ".tbss" in secs or ".tdata" in secs:
+            raise VariantSkipped("variant %s skipped: %s now defines thread_local objects; fibers share them, real threads would not" % (variant, s))
     key = sha("bin", " ".join(hflags), " ".join(ld), *(read(h) for h in hsrcs), extra, engine_digest(), hd, *objs)
     exe = os.path.join(OBJ, key + ".bin")
     if not os.path.exists(exe):
@@ -425,11 +437,19 @@ def main():
     only = set(args.sections.split(",")) if args.sections else None
 
     variants = ["main"] + [v for v, vc in cfg.get("variants", {}).items() if tier in vc.get("tiers", ["quick", "thorough"])]
+    # small variants flagged first=True run before the main sections, so that a deadline hit by the (much larger) main
+    # part on a loaded machine cannot starve them
+    variants.sort(key=lambda v: 0 if v != "main" and cfg["variants"][v].get("first") else 1)
     alljobs, timed_out, exes = [], False, {}
+    skipped_variants = []
     try:
         env.update(build_aux(cfg))
-        for v in variants:
-            exes[v] = build(pid, v)
+        for v in list(variants):
+            try:
+                exes[v] = build(pid, v)
+            except VariantSkipped as e:
+                variants.remove(v)
+                skipped_variants.append(str(e))
     except RuntimeError as e:
         print(str(e), file=sys.stderr)
         print("ENGINE-ERROR build failed for %s (the harness must compile against /repo's current tree)" % pid)
@@ -446,7 +466,8 @@ def main():
     tot = dict(evaluations=0, nontrivial=0, states=0, transitions=0, xchecked=0)
     hist, counters, sections, samples, notes = {}, {}, {}, [], []
     viols = {}  # key -> dict(desc, idx, count, section, variant)
-    exhaustive = not timed_out
+    exhaustive = not timed_out and not skipped_variants
+    notes += skipped_variants
     for j in alljobs:
         sec = sections.setdefault(j.section, dict(evaluations=0, states=0, transitions=0, shards=j.nshards, exhaustive=True, restarts=0, bound=""))
         sec["restarts"] += j.restarts
